@@ -543,12 +543,16 @@ mod tcp {
         pub _fill: Vec<TokioStream>,
         pub never: Option<SocketAddr>,
         pub _never_l: Option<TcpListener>,
+        pub bound: Vec<TcpSocket>,
     }
 
-    async fn closed_port() -> SocketAddr {
-        let l = TcpListener::bind("127.0.0.1:0").await.unwrap();
-        let a = l.local_addr().unwrap();
-        drop(l);
+    /// A port that refuses connections: a socket that is bound (so nobody else can take the port while the
+    /// scenario runs) but never listens.
+    fn closed_port(env: &mut Env) -> SocketAddr {
+        let s = TcpSocket::new_v4().unwrap();
+        s.bind("127.0.0.1:0".parse().unwrap()).unwrap();
+        let a = s.local_addr().unwrap();
+        env.bound.push(s);
         a
     }
 
@@ -592,7 +596,7 @@ mod tcp {
     }
 
     pub async fn run(out: &str) {
-        let mut env = Env { listeners: vec![], _fill: vec![], never: None, _never_l: None };
+        let mut env = Env { listeners: vec![], _fill: vec![], never: None, _never_l: None, bound: vec![] };
         never_port(&mut env).await;
         // scenario table: (outcomes, he_timeout ms or -1, concurrency or -1)
         let mut table: Vec<(Vec<&str>, i64, i64)> = vec![
@@ -634,7 +638,7 @@ mod tcp {
                         addrs.push(l.local_addr().unwrap());
                         env.listeners.push(l);
                     }
-                    "err" => addrs.push(closed_port().await),
+                    "err" => addrs.push(closed_port(&mut env)),
                     _ => addrs.push(env.never.unwrap()),
                 }
             }
